@@ -170,6 +170,9 @@ def check(a):
     os.makedirs(os.path.join(HERE, "evidence", "cex"), exist_ok=True)
     for res in sorted(results, key=lambda r: r["label"]):
         role = res["role"]
+        fatal = [n for n in res["stats"].get("notes", []) if str(n).startswith("FATAL:")]
+        if fatal:
+            harness_errors.append(f"{res['label']}: {fatal[0]}")
         if role == "main":
             if res["verdict"] == "confirmed":
                 continue
